@@ -216,6 +216,43 @@ fn gen_cases(ctx: &Ctx) -> Vec<Case> {
                 // `brbs`-style confusion: branch aliases given a flag number are surplus, too
                 cases.push(Case { form: fi, text: assemble(form, &ops), expect: Expect::Reject, sig: format!("guard/{}/count/surplus", form.name) });
             }
+            // two-operand forms: complete cross product of small probe sets (every register, the numeric
+            // boundary values) - a guard that looks at both operands together is not reachable one at a time
+            if form.ops.len() == 2 && std::ptr::eq(anchor, &anchors[0]) {
+                let probes = |op: &Opk| -> Vec<(String, Option<i64>)> {
+                    match *op {
+                        Opk::Reg { .. } => (0..32i64).map(|r| (format!("r{}", r), Some(r))).collect(),
+                        Opk::Imm { lo, hi, .. } => [lo - 1, lo, lo + 1, hi - 1, hi, hi + 1].iter().map(|v| (num_text(*v as i128), Some(*v))).collect(),
+                        Opk::ImmCom { .. } => [-1i64, 0, 255, 256].iter().map(|v| (num_text(*v as i128), Some(*v))).collect(),
+                        Opk::Disp { reg, .. } => [-1i64, 0, 31, 32, 63, 64].iter().map(|v| (if *v < 0 { format!("{}+({})", reg, v) } else { format!("{}+{}", reg, v) }, Some(*v))).collect(),
+                        Opk::Addr8l { .. } => [0x3fi64, 0x40, 0x7f, 0x80, 0xbf, 0xc0].iter().map(|v| (num_text(*v as i128), Some(*v))).collect(),
+                        Opk::Rel { bits, .. } => {
+                            let h = 1i64 << (bits - 1);
+                            [-h - 1, -h, 0, h - 1, h].iter().map(|d| (op_text(form, form.ops.len() - 1, *d), Some(*d))).collect()
+                        }
+                        Opk::Index(ix) => vec![(ix.text().to_string(), Some(0))],
+                    }
+                };
+                let (pa, pb) = (probes(&form.ops[0]), probes(&form.ops[1]));
+                for (ta, va) in &pa {
+                    for (tb, vb) in &pb {
+                        let vals = vec![va.unwrap(), vb.unwrap()];
+                        let legal = form.legal(&vals);
+                        // negative 8-bit immediates stay in the "either" zone
+                        let either = form.ops.iter().zip(&vals).any(|(o, v)| (matches!(o, Opk::ImmCom { .. }) || matches!(o, Opk::Imm { lo: 0, hi: 255, .. })) && (-128..0).contains(v));
+                        let others_legal = form.ops.iter().zip(&vals).all(|(o, v)| o.legal(*v) || ((matches!(o, Opk::ImmCom { .. }) || matches!(o, Opk::Imm { lo: 0, hi: 255, .. })) && (-128..0).contains(v)));
+                        let expect = if legal {
+                            Expect::Accept(isa::encode(form, &vals))
+                        } else if either && others_legal {
+                            let v2: Vec<i64> = vals.iter().map(|v| if *v < 0 { *v & 0xff } else { *v }).collect();
+                            Expect::Either(isa::encode(form, &v2))
+                        } else {
+                            Expect::Reject
+                        };
+                        cases.push(Case { form: fi, text: assemble(form, &[ta.clone(), tb.clone()]), expect, sig: format!("guard/{}/cross", form.name) });
+                    }
+                }
+            }
             if ctx.tier == Tier::Thorough && form.ops.len() == 2 {
                 // two operands out of domain at once
                 let bad = |op: &Opk, rng: &mut Rng| -> Option<String> {
@@ -317,7 +354,7 @@ pub fn run(ctx: &Ctx) -> i32 {
     ctx.exhaustive.store(true, std::sync::atomic::Ordering::Relaxed);
     fw::finish(
         ctx,
-        "per instruction form and legal anchor tuple, one operand at a time leaves its ISA domain: every register r0..r31 in each register position, every number in [lo-300, hi+300] plus ±2^k, ±2^k±1 and ±i64::MAX in each numeric position, operand-kind substitutions, 0..arity-1 and arity+1 operands (thorough: two operands out at once, ±70000 windows on 16/22-bit fields); exhaustive for those windows; distinct_nontrivial = distinct must-reject source lines",
+        "per instruction form and legal anchor tuple, one operand at a time leaves its ISA domain: every register r0..r31 in each register position, every number in [lo-300, hi+300] plus ±2^k, ±2^k±1 and ±i64::MAX in each numeric position, operand-kind substitutions, 0..arity-1 and arity+1 operands, and for every two-operand form the complete cross product every register x every register / boundary value (thorough: two operands out at once, ±70000 windows on 16/22-bit fields); exhaustive for those windows; distinct_nontrivial = distinct must-reject source lines",
         &[
             "legality = refmodel/isa.rs operand domains (manual transcription)",
             "8-bit immediates written as -128..-1 are accepted as two's complement or rejected (statement silent); ld/ldd and st/std cross-spellings are not probed except X+q, which no instruction encodes",
